@@ -121,8 +121,9 @@ class Check:
         ev = {'property_id': self.pid, 'tier': self.tier, 'seed': int(self.seed), 'level': level, 'coverage': cov,
               'assumptions': self.assumptions, 'wall_s': round(wall, 2), 'violations': len(self.violations)}
         validate_evidence(ev)
-        os.makedirs(os.path.join(VERIF, 'evidence'), exist_ok=True)
-        with open(os.path.join(VERIF, 'evidence', f'{self.pid}.json'), 'w') as f:
+        evdir = os.environ.get('VERIF_EVIDENCE_DIR') or os.path.join(VERIF, 'evidence')      # seeded-change runs (harness/seeded.py) keep their evidence apart
+        os.makedirs(evdir, exist_ok=True)
+        with open(os.path.join(evdir, f'{self.pid}.json'), 'w') as f:
             json.dump(ev, f, indent=1, default=_jsonable)
             f.write('\n')
         for sig, n in sorted(self.known_hits.items()):
@@ -166,6 +167,17 @@ def write_replay(pid, obj):
     with open(path, 'w') as f:
         f.write(text + '\n')
     return path
+
+
+def scribble(x, value=0xA5):
+    """The caller owns what a public function returned: overwrite it, so that any later result that still depended on it (a cache handed out
+    without a copy, a shared work buffer) shows up as a wrong value in the comparisons that follow."""
+    try:
+        import numpy as np
+        if isinstance(x, np.ndarray) and x.flags.writeable and x.size:
+            x[...] = value if x.dtype.kind in 'iu' else 1
+    except Exception:       # noqa - read-only / exotic containers are left alone
+        pass
 
 
 def validate_evidence(ev):
